@@ -176,3 +176,24 @@ func (r *Run) ParallelN(n int, fn func(i int) (cases int, fails []Failure)) {
 		r.Cases += c
 	}
 }
+
+// Do runs fn(0..n-1) on Workers() goroutines without counting cases (preparatory work such as
+// bisections for capacity boundaries).
+func Do(n int, fn func(i int)) {
+	var next int64 = -1
+	var wg sync.WaitGroup
+	for w := 0; w < Workers(); w++ {
+		wg.Add(1)
+		go func() {
+			defer wg.Done()
+			for {
+				i := int(atomic.AddInt64(&next, 1))
+				if i >= n {
+					return
+				}
+				fn(i)
+			}
+		}()
+	}
+	wg.Wait()
+}
